@@ -50,9 +50,12 @@ PROPS: Dict[str, Dict[str, Any]] = {
                          "qPredsSync_exec", "qAsyncPreds_exec_pe", "qAsyncPreds_exec_le",
                          "src_ntuple_sync", "src_ntuple_async", "src_ntuple_init", "src_ntuple_generic", "ntupleSync_eq",
                          "ntupleAsync_eq", "nGate_exec", "nArity_exec", "nforFold3_fields", "nLoopBody_exec", "nFinal_exec",
-                         "nTail_exec"],
+                         "nTail_exec",
+                         "src_map_sync", "src_map_async", "src_map_init", "mapSync_eq", "mapAsync_eq", "mGate_exec",
+                         "mPreds_exec", "mAPreds_exec", "mCheck_exec", "mforFold2_pairs", "mforFold2_pairs_err", "mFinal_exec",
+                         "mTail_exec", "mforFold_preds", "mforFold_apreds"],
             "modules": ["KodaModel.Properties.C03", "KodaModel.Properties.C03Src", "KodaModel.Properties.C03Seq",
-                        "KodaModel.Properties.C03NTuple"],
+                        "KodaModel.Properties.C03NTuple", "KodaModel.Properties.C03Map"],
             "level_note": "the list validator is tied to the source twice: (1) TRANSLATOR - harness/pysrc.py rewrites "
                           "Generated/ListSrc.lean from the AST of ListValidator._validate_to_tuple / _validate_to_tuple_async "
                           "(list.py) on every run; src_list_sync / src_list_async prove that interpreting the translated "
@@ -66,15 +69,33 @@ PROPS: Dict[str, Dict[str, Any]] = {
                           "src_set_sync / src_set_async / src_utuple_sync / src_utuple_async prove them equal to seqStep .set / "
                           ".utuple; NTupleValidator likewise (Generated/NTupleSrc.lean, KodaModel/PyNTuple.lean: the loop over "
                           "enumerate(zip(wrapped fields, value)), the validator's own ExactItemCount, the whole-object check) with "
-                          "src_ntuple_sync / src_ntuple_async = ntupleStep; (2) the correspondence stream.  Maps: hand-modelled, "
-                          "correspondence only",
+                          "src_ntuple_sync / src_ntuple_async = ntupleStep; MapValidator likewise (Generated/MapSrc.lean, "
+                          "KodaModel/PyMap.lean: the two predicate loops, .items(), item assignment with TypeError on an "
+                          "unhashable key payload, KeyValErrs(key=..., val=...)) with src_map_sync / src_map_async = mapStep - "
+                          "every collection validator's control flow is now translated; (2) the correspondence stream",
             "stream": "core", "opts": {"salt": "c03", "gen": ["streams", "gen_collection_case"]},
             "quick_n": 6000, "thorough_n": 100000, "fields": ["out", "trace"]},
     "C04": {"theorems": ["recLoop_of_run", "recLoop_to_run", "RecRun.errs_length", "RecRun.no_errs_iff", "C04_pre_first",
                          "C04_pre_iff", "C04_unknown_first", "C04_gate_record", "C04_gate_dictAny",
                          "C04_gate_typeddict", "C04_gate_class_dict", "C04_gate_class_other", "recordStep_inr",
                          "C04_keyerrs_exact", "C04_all_keys_ok", "C04_accept_no_oc", "C04_objcheck_fails",
-                         "C04_payload_dict", "C04_payload_record", "C04_payload_class", "C04_run", "run_mono"],
+                         "C04_payload_dict", "C04_payload_record", "C04_payload_class", "C04_run", "run_mono",
+                         "src_dictany_sync", "src_dictany_async", "src_dictany_init", "dictAnySync_eq", "dictAnyAsync_eq",
+                         "dGuard_exec", "dGate_exec", "dforFold_scan", "dScan_exec", "dLoopBody_step", "dforFold3_keys",
+                         "dFinal_keys", "dFinal_ok", "dTail_exec"],
+            "modules": ["KodaModel.Properties.C04", "KodaModel.Properties.C04DictAny"],
+            "level_note": "the C04_* theorems state the property about recordStep (all five record-shaped validators share it).  "
+                          "Tie to the source: (1) TRANSLATOR, for DictValidatorAny - harness/pysrc.py rewrites "
+                          "Generated/DictAnySrc.lean from the AST of DictValidatorAny._validate_to_tuple / "
+                          "_validate_to_tuple_async (dictionary.py) on every run; src_dictany_sync / src_dictany_async prove "
+                          "that interpreting the translated methods (KodaModel/PyDictAny.lean: the unknown-key scan with its "
+                          "early return, the loop over the precomputed (key, wrapped validator, required) triples, `not in`, "
+                          "subscripts, item assignment into the payload and error dicts, the `and` / walrus chain of "
+                          "whole-object checks) is recordStep for the dictAny kind, for every schema, policy, object check "
+                          "and input; __init__ is pinned (src_dictany_init).  RecordValidator, DataclassValidator, "
+                          "NamedTupleValidator, TypedDictValidator: hand-modelled.  (2) the correspondence stream, for all "
+                          "five.  Trusted: Lean kernel + propext/Quot.sound/Classical.choice; the translator and the "
+                          "interpreter's reading of the Python subset; CPython for dict / set membership",
             "stream": "core", "opts": {"salt": "c04", "gen": ["streams", "gen_record_case"]},
             "quick_n": 6000, "thorough_n": 100000, "fields": ["out", "trace"]},
     "C02": {"theorems": ["runPreds_spec", "runAPreds_spec", "runAPreds_all_awaited", "contPreds_spec", "runProcs_spec",
